@@ -546,7 +546,7 @@ def gt(r, c):
     return r > c
 
 
-def check_predicates(ctx, case, table, out, metric_ok, sep_ok):
+def check_predicates(ctx, case, table, out, metric_ok, sep_ok, frames_metric=False):
     """Evaluate the property's words on one real output. `table` holds exact numbers."""
     n = case['n']
     D = table
@@ -646,15 +646,17 @@ def check_predicates(ctx, case, table, out, metric_ok, sep_ok):
     if k is not None and len(new) and m > k:
         bad('more centers than n_clusters')
         return False
-    # --- 2-approximation (cold start, true metric, exhaustive optimum)
-    if init is None and metric_ok and 1 <= m and n <= 9:
-        kk = min(m, n)
+    # --- 2-approximation (true metric on the frames, exhaustive optimum): the final radius is at most twice
+    #     the best radius for as many centers as the loop ADDED (cold start: all of them)
+    t = len(new)
+    if frames_metric and (replay_ok or not tri) and t >= 1 and n <= 9:
+        kk = min(t, n)
         best = None
         for S in itertools.combinations(range(n), kk):
             rad = max(min(D[f][s] for s in S) for f in range(n))
             if best is None or rad < best:
                 best = rad
-        ctx.tag('bruteforce-opt')
+        ctx.tag('bruteforce-opt' + ('' if init is None else '(warm: added centers)'))
         if r_final is None or r_final > 2 * best:
             bad('final radius %s exceeds twice the optimal %d-center radius %s' % (r_final, kk, best))
             return False
@@ -769,7 +771,7 @@ def real_predicates(ctx, case, table, real):
         metric_tri = metric_ok
     if metric_ok:
         ctx.tag('true-metric')
-    if not check_predicates(ctx, case, rows, real['ok'], metric_tri, sep_ok):
+    if not check_predicates(ctx, case, rows, real['ok'], metric_tri, sep_ok, is_metric(square)):
         return
     # supplied centers that are not frames of the data (a true metric on all ids in play)
     init = case['init']
@@ -856,13 +858,23 @@ def _huge_check(ctx, data):
     from enspara.cluster import kcenters as kc
     r = np.random.default_rng(int(data['seed']))
     n, k, tri, dtype = data['n'], data['k'], data['tri'], data['dtype']
-    x = r.integers(0, 1000, size=n)
     far = [int(v) for v in r.permutation(np.arange(65600, n))[:3]]
-    x[far[0]], x[far[1]], x[far[2]] = 5000, -4000, 2500          # unique extreme values, high indices
+    if data.get('mode') == 'dense':
+        # after the first two centers (values 0 and 1001) every other frame is farther than half their
+        # distance from its center, so the shortcut has to recompute (almost) ALL n frames at once:
+        # block-wise / windowed recomputation must not lose a tail
+        x = r.integers(500, 1001, size=n)
+        x[far[0]] = 1001
+        x[far[1] if data['warm'] else 0] = 0
+        init_ids = [far[1]] if data['warm'] else None
+    else:
+        x = r.integers(0, 1000, size=n)
+        x[far[0]], x[far[1]], x[far[2]] = 5000, -4000, 2500      # unique extreme values, high indices
+        init_ids = far[1:] if data['warm'] else None
     X = x.astype(dtype).reshape(n, 1)
-    init_ids = far[1:] if data['warm'] else None
     init = None if init_ids is None else X[init_ids].copy()
-    ctx.case(data, nontrivial=True, tags=['model-skipped-huge-n', 'n=65536+', 'dtype=' + dtype,
+    ctx.case(data, nontrivial=True, tags=['model-skipped-huge-n', 'n=65536+' if n <= 2 ** 20 else 'n=2^20+',
+                                          'huge-' + data.get('mode', 'sparse') + '-recompute', 'dtype=' + dtype,
                                           'tri' if tri else 'plain', 'warm' if data['warm'] else 'cold'])
     bad = lambda what: ctx.violation(what, dict(data))  # noqa
     x0 = X.tobytes()
@@ -1030,6 +1042,15 @@ def run(ctx):
         huge_check(ctx, {'family': 'huge', 'n': 70000, 'seed': int(rng.integers(0, 2 ** 31)), 'k': 4,
                          'tri': bool(i % 2), 'warm': bool(i % 3 == 1),
                          'dtype': ['int64', 'float64', 'int32', 'float32'][i % 4]})
+    # the shortcut recomputing more than 2**16 / 2**20 frames in one iteration (just above each)
+    dense = [(2 ** 16 + 4099, 'float32', False), (2 ** 20 + 4099, 'int32', True),
+             (3 * 2 ** 20 + 4099, 'float32', False)]
+    if ctx.thorough:
+        dense += [(3 * 2 ** 20 + 4099, 'int64', True), (2 * 2 ** 16 + 77, 'int64', True),
+                  (2 ** 20 + 1, 'float64', False)]
+    for nn, dt, warm in dense:
+        huge_check(ctx, {'family': 'huge', 'mode': 'dense', 'n': nn, 'seed': int(rng.integers(0, 2 ** 31)),
+                         'k': 4, 'tri': True, 'warm': warm, 'dtype': dt})
     # md.Trajectory data with the 'rmsd' metric (the containers with an .xyz)
     for _ in range(ctx.n(25, 300)):
         c = gen_md_case(rng)
